@@ -20,8 +20,9 @@ Reference (independent of the repo's exemption code, from the statement):
   path == prefix + "/health")  or  (PKCE active and path starts with prefix + "/_oauth/")
 Oracle for every phase-2 request:
   (a) the service-code LOG stays empty (always, exempt or not);
-  (b) if not exempt: the authenticate callback was consulted and the response is 401 — or, with PKCE active, the
-      302 to the authorization endpoint for a GET that accepts text/html.
+  (b) if not exempt: the authenticate callback was consulted and the response is its refusal: 401 (403 / 5xx are
+      tolerated as fail-closed; the exact status is C21's subject) — or, with PKCE active, the 302 to the
+      authorization endpoint for a GET that accepts text/html.
 Exempt requests are not otherwise judged.  ``on_serve_start`` is not service dispatch and is not logged.
 Finding keys: when the un-refused path is a proper extension of ``{prefix}/health`` (one mechanism):
 ``exempt-prefix-startswith:<class>`` if service code ran, ``exempt-prefix-startswith-not-refused:<class>`` if the
@@ -52,7 +53,7 @@ RULE = (
     "sticky{off,on} x health endpoint{on,off} x rejection{ValueError (+PermissionError, AuthFailure T)}; per config: "
     "every request the real client emits for 10 colliding method names (+__describe__, upload-URL, session "
     "DELETE/resume) x verbs{GET,HEAD,POST,PUT,DELETE,OPTIONS,PATCH (+TRACE,CONNECT T)}, every name x "
-    "suffix{'',/init,/exchange,/,/x} x {POST,GET}, every framework/near-miss path x verbs x Accept{none,text/html}; "
+    "suffix{'',/init,/exchange,/,/x} x {POST,GET}, every framework/near-miss path x verbs x Accept{none,text/html (quick: text/html on GET/POST only)}; "
     "one evaluation = one HTTP request against the rejecting app; non-trivial = the authenticate callback ran "
     "and rejected it (class = kind, route class, verb, live?)"
 )
@@ -352,6 +353,8 @@ def requests_for(ctx: Ctx, cfg: dict[str, Any], recorded: list[dict[str, Any]], 
     for path in dict.fromkeys(fw):
         for v in verbs:
             for accept in (None, "text/html"):
+                if accept and ctx.quick and v not in ("GET", "POST"):
+                    continue  # Accept only steers the browser redirect / 401 rendering; all verbs x Accept in thorough
                 h = dict(sess_hdr) if "__session__" in path else {}
                 if accept:
                     h["Accept"] = accept
@@ -381,7 +384,9 @@ def judge(ctx: Ctx, cfg: dict[str, Any], rq: dict[str, Any], status: int, calls:
     hp = cfg["prefix"] + "/health"
     startswith_health = cfg["health"] and rq["path"].startswith(hp) and rq["path"] != hp
     browser_get = cfg["pkce"] and rq["verb"] == "GET" and "text/html" in (rq["headers"].get("Accept") or "")
-    refused = status == 401 or (browser_get and status == 302 and location.startswith("https://idp.invalid/authorize"))
+    # refused = the callback's rejection ended the request: 401 (403/5xx tolerated: fail-closed, the exact status is C21's
+    # business), or the PKCE redirect to the authorization endpoint; a 2xx/404/405/400 means routing went on regardless
+    refused = status in (401, 403) or status >= 500 or (browser_get and status == 302 and location.startswith("https://idp.invalid/authorize"))
     bad = False
     if startswith_health and not exempt:
         # one mechanism (prefix test instead of equality); classes: sub-paths of the health endpoint, each
@@ -409,6 +414,7 @@ def run_config(ctx: Ctx, cfg: dict[str, Any], only: dict[str, Any] | None = None
     ctx.extra["live_recorded_requests"] += sum(1 for r in recorded if r["live"] and r["verb"] == "POST")
     sw.reject = True
     lives: list[dict[str, Any]] = []
+    nbad = 0
     for rq in requests_for(ctx, cfg, recorded, token):
         if only is not None and not (rq["verb"] == only["verb"] and rq["path"] == only["path"] and rq["src"] == only["src"] and rq["headers"].get("Accept") == only.get("accept")):
             continue
@@ -418,6 +424,8 @@ def run_config(ctx: Ctx, cfg: dict[str, Any], only: dict[str, Any] | None = None
         out = judge(ctx, cfg, rq, res.status_code, sw.calls, list(LOG), res.headers.get("location", "") or "")
         if rq["live"]:
             lives.append(rq)
+        if out == "bad":
+            nbad += 1
         if only is None:
             nt = (cfg["kind"], rclass(cfg, rq["path"]), rq["verb"], rq["live"]) if sw.calls > 0 and out in ("401", "302") else None
             sample = None
@@ -436,6 +444,10 @@ def run_config(ctx: Ctx, cfg: dict[str, Any], only: dict[str, Any] | None = None
         del LOG[:]
         res = send(app, rq)
         if not LOG:
+            if nbad:
+                # phase 2 let requests through (already reported): they may have consumed the session / state
+                ctx.extra["positive_controls_skipped_after_violation"] += 1
+                continue
             raise HarnessError(f"positive control failed: {rq['verb']} {rq['path']} did not run service code in accept mode (status {res.status_code}) for {cfg}")
         ctx.extra["positive_controls"] += 1
     del LOG[:]
@@ -457,7 +469,7 @@ def _init(ctx: Ctx) -> None:
     logging.getLogger("vgi_rpc").setLevel(logging.CRITICAL)
     logging.getLogger("vgi_rpc.http").setLevel(logging.CRITICAL)
     warnings.simplefilter("ignore")
-    ctx.extra.update({"configs": 0, "live_recorded_requests": 0, "live_requests_rejected_phase": 0, "positive_controls": 0})
+    ctx.extra.update({"configs": 0, "live_recorded_requests": 0, "live_requests_rejected_phase": 0, "positive_controls": 0, "positive_controls_skipped_after_violation": 0})
 
 
 def run(ctx: Ctx) -> None:
